@@ -17,6 +17,7 @@ import (
 	"sort"
 	"strings"
 	"sync"
+	"sync/atomic"
 	"syscall"
 	"testing"
 	"time"
@@ -576,6 +577,53 @@ func vJSON(v any) string { b, _ := json.Marshal(v); return string(b) }
 func vTimeString(t time.Time) string { return t.Format("2006-01-02 15:04:05") }
 
 var _ = backend.Handle{}
+
+// vFailOneBackend fails exactly the n-th logical mutating operation (Save/Remove, counted
+// ABOVE the retry layer: install it through gopts.BackendTestHook) for good and lets everything
+// else through: an outage of one request that outlasts the retry budget while later requests
+// work again. This is the fault shape that exposes swallowed errors; a crash prefix cannot.
+type vFailOneBackend struct {
+	backend.Backend
+	n, cnt int64
+	hitOp  atomic.Value // description of the failed operation
+}
+
+func (b *vFailOneBackend) hit() bool { return atomic.AddInt64(&b.cnt, 1)-1 == b.n }
+
+func (b *vFailOneBackend) Save(ctx context.Context, h backend.Handle, rd backend.RewindReader) error {
+	if b.hit() {
+		b.hitOp.Store("save " + h.String())
+		return fmt.Errorf("verif: injected permanent failure of save %v", h)
+	}
+	return b.Backend.Save(ctx, h, rd)
+}
+
+func (b *vFailOneBackend) Remove(ctx context.Context, h backend.Handle) error {
+	if b.hit() {
+		b.hitOp.Store("remove " + h.String())
+		return fmt.Errorf("verif: injected permanent failure of remove %v", h)
+	}
+	return b.Backend.Remove(ctx, h)
+}
+
+func (b *vFailOneBackend) Unwrap() backend.Backend { return b.Backend }
+
+// WithFailOne returns a copy of e whose commands run with the k-th logical Save/Remove failing
+// for good; hit() of the returned function reports which operation was failed ("" if none).
+func (e *vEnv) WithFailOne(k int) (*vEnv, func() string) {
+	n := *e
+	fb := &vFailOneBackend{n: int64(k)}
+	n.gopts.BackendTestHook = func(be backend.Backend) (backend.Backend, error) {
+		fb.Backend = be
+		return fb, nil
+	}
+	return &n, func() string {
+		if v, ok := fb.hitOp.Load().(string); ok {
+			return v
+		}
+		return ""
+	}
+}
 
 // vNewID returns the element of after that is not in before ("" if none).
 func vNewID(before, after []string) string {
